@@ -5,24 +5,28 @@ package membership
 // Contracts checked by /verif (govc). Comment-only: no executable code. Member numbering (C10).
 
 //@ func (*Model).IsChanged
+//@ params s other
 //@ props C10 C11
 //@ requires s != nil && logger.Log != nil
 //@ ensures.changed[C10,C11] result == (other == nil || s.MemberNumber != other.MemberNumber || s.TotalMembers != other.TotalMembers)
 //@ modifies nothing
 
 //@ func NewStaticMembership
+//@ params config
 //@ props C10
 //@ requires config != nil
 //@ ensures.configured[C10] result != nil && typeis(result, "*staticMembership") && as(result, "*staticMembership").info != nil && as(result, "*staticMembership").info.MemberNumber == config.Dcp.Group.Membership.MemberNumber && as(result, "*staticMembership").info.TotalMembers == config.Dcp.Group.Membership.TotalMembers
 //@ modifies nothing
 
 //@ func (*staticMembership).GetInfo
+//@ params s
 //@ props C10
 //@ requires s != nil
 //@ ensures.fixed[C10] result == s.info
 //@ modifies nothing
 
 //@ func NewDynamicMembership
+//@ params bus
 //@ props C10 C15
 //@ requires bus != nil && logger.Log != nil
 //@ ensures.kind[C10,C15] typeis(result, "*dynamicMembership") && fresh(as(result, "*dynamicMembership")) && as(result, "*dynamicMembership").info == nil
